@@ -21,6 +21,11 @@ for f in sorted(glob.glob(os.path.join(R, "claims", "C??.json"))):
     fns = c.get("functions_under_contract", [])
     nfn = len({x.get("contract", str(x)).split("#")[0] if isinstance(x, dict) else str(x) for x in fns})
     be = ", ".join(f"{k} {v}" for k, v in sorted((c.get("by_backend") or {}).items(), key=lambda kv: -kv[1]))
+    other = (c.get("discharged", 0) or 0) - sum((c.get("by_backend") or {}).values())
+    if other > 0:
+        kind = {"C07": "frame analysis", "C08": "frame analysis + order obligations", "C14": "frame analysis", "C19": "frame analysis",
+                "C12": "syntactic / enumerated"}.get(pid, "syntactic / enumerated (hook)")
+        be += f"; {kind} {other}"
     open_f = [k["id"] for k in kf["findings"] if pid in k.get("properties", []) and k.get("status", "open") == "open"]
     rows.append(f"| {pid} | {cl['category']} | {c.get('discharged', '?')} / {c.get('obligations', '?')} | {be} | {nfn} ({len(fns)} contracts) | "
                 f"{c.get('confirmed_by_two_configs', '?')} | {c.get('z3_only_on_seq_string_files', '?')} | {(c.get('runtime_crosscheck') or {}).get('cases', 0)} | "
